@@ -14,6 +14,7 @@ import (
 	"sort"
 	"strings"
 	"sync"
+	"time"
 
 	"github.com/free5gc/nas"
 )
@@ -123,6 +124,63 @@ func concMain(g int) {
 			first = s
 		}
 		mu.Unlock()
+	}
+	// "contended" phase: per op kind, every goroutine gets its OWN line of that kind (other keys, other values) and all of them
+	// repeat their line at the same time. State that is shared between callers of one code path but properly locked shows no
+	// race; it shows as a goroutine receiving the answer to somebody else's arguments.
+	{
+		byKind := map[string][]int{}
+		var kinds []string
+		for i, l := range lines {
+			t := strings.Fields(l)
+			if len(t) < 2 || len(l) > 3000 || strings.HasPrefix(seq[i], "bad-op") {
+				continue
+			}
+			k := t[0] + " " + t[1]
+			if _, ok := byKind[k]; !ok {
+				kinds = append(kinds, k)
+			}
+			byKind[k] = append(byKind[k], i)
+		}
+		contended := 0
+		for _, k := range kinds {
+			idx := byKind[k]
+			if len(idx) < 2 {
+				continue
+			}
+			t0 := time.Now()
+			runOp(lines[idx[0]])
+			per := time.Since(t0)
+			reps := 200
+			if per > 0 {
+				if r := int(6 * time.Millisecond / per); r < reps {
+					reps = r
+				}
+			}
+			if reps < 8 {
+				reps = 8
+			}
+			contended++
+			var cw sync.WaitGroup
+			start := make(chan struct{})
+			for w := 0; w < g; w++ {
+				cw.Add(1)
+				go func(w int) {
+					defer cw.Done()
+					i := idx[w%len(idx)]
+					<-start
+					for r := 0; r < reps; r++ {
+						if got := runOp(lines[i]); got != seq[i] {
+							note(fmt.Sprintf("%s => under contention %s, sequential %s", lines[i], got, seq[i]))
+							return
+						}
+					}
+				}(w)
+			}
+			close(start)
+			cw.Wait()
+		}
+		_ = contended
 	}
 	for w := 0; w < g; w++ {
 		wg.Add(1)
